@@ -8,32 +8,37 @@
 (* one is replayed as part of it).  With -simulate it prints random deep histories instead.     *)
 (* Operations:  <<"reset", Size, MinSz - 2>> first: the configuration (layout 0 default, 1 nRF)  *)
 (*              <<"push", id, size, len>>   alloc_front( size ), fill, push_front (len bytes)   *)
-(*              <<"alloc", size>>            alloc_front( size ) that the model expects to fail *)
+(*                                          (also for sizes the model expects to be refused)     *)
 (*              <<"pop">>                    next_end() (logged with its bytes) + pop_end()     *)
 EXTENDS PduRingImpl, Json
 
 CONSTANTS D,          \* number of operations
           EmitAll     \* TRUE: print at every transition (exhaustive) / FALSE: print at depth D only (simulation)
-VARIABLE hist
-gvars == <<ivars, hist>>
+VARIABLES hist, fin
+gvars == <<ivars, hist, fin>>
 \* bytes outside live PDUs matter to the ring only as "wrap mark or not": 0 / not 0
 View  == <<Size, MinSz, live, front, end, bad,
            [a \in Cells |-> IF a \in LiveBytes(live) THEN mem[a] ELSE IF mem[a] = 0 THEN 0 ELSE 1]>>
 
-GInit == IInit /\ hist = << <<"reset", Size, MinSz - 2>> >>
+GInit == IInit /\ hist = << <<"reset", Size, MinSz - 2>> >> /\ fin = FALSE
 
-Emit(h) == (EmitAll \/ Len(h) = D + 1) => PrintT(<<"BEHAVIOUR", ToJson(h)>>)
+Emit(h) == EmitAll => PrintT(<<"BEHAVIOUR", ToJson(h)>>)
 
 GNext ==
-    /\ Len(hist) < D + 1
+  \/ \* simulation: a complete history is printed once, by a step of its own (not once per candidate successor)
+    /\ ~EmitAll /\ Len(hist) = D + 1 /\ ~fin
+    /\ fin' = TRUE /\ PrintT(<<"BEHAVIOUR", ToJson(hist)>>)
+    /\ UNCHANGED <<ivars, hist>>
+  \/
+    /\ Len(hist) < D + 1 /\ UNCHANGED fin
     /\ \/ \E size \in Sizes, len \in Lens :
              /\ Len(live) < MaxLive
              /\ IPush(FreshId, size, len)
              /\ hist' = Append(hist, <<"push", FreshId, size, len>>)
-       \/ \E size \in Sizes :
-             /\ AllocAt(size) = -1
+       \/ \E size \in Sizes :      \* the model expects alloc_front to refuse; should the real ring grant, a PDU that
+             /\ AllocAt(size) = -1  \* fills the region is committed (that is how a wrong grant does damage)
              /\ UNCHANGED ivars
-             /\ hist' = Append(hist, <<"alloc", size>>)
+             /\ hist' = Append(hist, <<"push", FreshId, size, IF size <= 254 THEN size ELSE 254>>)
        \/ IPop /\ hist' = Append(hist, <<"pop">>)
     /\ Emit(hist')
 
